@@ -1,7 +1,7 @@
 (* Props/C04.v - Cash flow, NPV, IRR, VIR, MOIC and payback are mutually consistent.
    Statements only; every proof is `exact <lemma of Proofs/CashFlowProofs.v>`. *)
-From Coq Require Import QArith Qabs List ZArith Bool.
-From Verif Require Import Base.Flat Model.CashFlow Proofs.CashFlowProofs.
+From Coq Require Import QArith Qabs List ZArith Bool Lia.
+From Verif Require Import Base.Flat Model.CashFlow Proofs.CashFlowProofs Proofs.ScalingProofs Proofs.IrrProofs.
 Import ListNotations.
 Open Scope Q_scope.
 
@@ -77,6 +77,22 @@ Theorem C04_executable_forms : forall (r : Q) (cf : list Q) (d : bool) (l : list
 Proof. intros r cf d l. split; [apply calculate_npv_red_eq | apply running_red_from_eq; reflexivity]. Qed.
 Print Assumptions C04_executable_forms.
 
+(* a conventional cash flow (non-positive years, at least one strictly negative, followed by non-negative years) has at
+   most one internal rate of return above -100 %: NPV(r)(1+r)^k is strictly decreasing.  So for such a series the reported
+   IRR - checked on every run to zero the modelled NPV - is THE rate implied by the series. *)
+Theorem C04_irr_unique : forall (r1 r2 : Q) (neg pos : list Q), 0 < 1 + r1 -> 0 < 1 + r2 ->
+  nonpos neg -> Exists (fun c => c < 0) neg -> nonneg pos ->
+  npv r1 (neg ++ pos) == 0 -> npv r2 (neg ++ pos) == 0 -> r1 == r2.
+Proof. exact irr_unique. Qed.
+Print Assumptions C04_irr_unique.
+
+(* in particular for the modelled project cash flow with positive capital cost and non-negative operating years *)
+Theorem C04_project_irr_unique : forall (c : cf_in) (r1 r2 : Q),
+  0 < ci_ccap c -> (1 <= ci_cy c)%nat -> nonneg (total_ops c) ->
+  0 < 1 + r1 -> 0 < 1 + r2 -> npv r1 (total_cashflow c) == 0 -> npv r2 (total_cashflow c) == 0 -> r1 == r2.
+Proof. exact project_irr_unique. Qed.
+Print Assumptions C04_project_irr_unique.
+
 (* ---- non-vacuity: a concrete cogeneration run with carbon revenue, 2 construction + 3 operating years ---- *)
 Definition ex_c : cf_in :=
   {| ci_kind := KCogen; ci_cy := 2; ci_ccap := 30; ci_coam := 2; ci_carbon := true; ci_gi := 1#2; ci_ni := 1#4;
@@ -92,3 +108,5 @@ Proof. split; vm_compute; [discriminate | reflexivity]. Qed.
 Example ex_payback_positive :
   let cum := running [-10; 4; 4; 4; 4] in nth 0 cum 0 <= 0 /\ 0 < payback cum /\ Qred (payback cum) = 7#2.
 Proof. cbv zeta. repeat split; vm_compute; try reflexivity; discriminate. Qed.
+Example ex_irr : let cf := [-100; 60; 60] in npv (1 # 5) cf < 0 /\ 0 < npv (1 # 10) cf /\ nonpos [-100] /\ nonneg [60; 60].
+Proof. cbv zeta. repeat split; try (vm_compute; reflexivity); repeat constructor; unfold Qle; simpl; lia. Qed.
